@@ -67,10 +67,16 @@ func (n *N) yaml(sb *strings.Builder, indent string, cls string, incl string) {
 	if n.Err == "name" {
 		name = n.Base + "{{ no_such_function(1) }}"
 	}
+	if n.Err == "unclosed-name" {
+		name = n.Base + "-{{ fc }" // "}}" mistyped
+	}
 	fmt.Fprintf(sb, "%s- name: \"%s\"\n", indent, name)
 	en := n.Enabled
 	if n.Err == "enabled" {
 		en = "{{ no_such_function(2) }}"
+	}
+	if n.Err == "unclosed-enabled" {
+		en = "{{ fa }"
 	}
 	if en != "" {
 		fmt.Fprintf(sb, "%s  enabled: \"%s\"\n", indent, en)
@@ -95,10 +101,13 @@ func (n *N) yaml(sb *strings.Builder, indent string, cls string, incl string) {
 		}
 		fmt.Fprintf(sb, "%s  for:\n%s    begin: \"0\"\n%s    end: \"%s\"\n%s    var: %s\n", indent, indent, indent, e, indent, n.IterVar)
 	}
-	if n.VarRef != "" || n.Err == "scope" {
+	if n.VarRef != "" || n.Err == "scope" || n.Err == "unclosed-var" {
 		fmt.Fprintf(sb, "%s  vars:\n", indent)
 		if n.VarRef != "" {
 			fmt.Fprintf(sb, "%s    v%s: \"{{ %s }}x\"\n", indent, n.Base, n.VarRef)
+		}
+		if n.Err == "unclosed-var" {
+			fmt.Fprintf(sb, "%s    verr: \"{{ fc }-x\"\n", indent)
 		}
 		if n.Err == "scope" {
 			// the iteration variable of an iterator elsewhere in the document (role scsrc): not in scope here. The same text is a
@@ -131,7 +140,7 @@ type expRole struct {
 func expand(nodes []*N, prefix string, bound map[string]string, included []*N, out *[]expRole, reached *bool) int {
 	count := 0
 	for _, n := range nodes {
-		if !enabledTruth[n.Enabled] && n.Err != "enabled" {
+		if !enabledTruth[n.Enabled] && n.Err != "enabled" && n.Err != "unclosed-enabled" {
 			continue
 		}
 		inst := []map[string]string{bound}
@@ -562,7 +571,7 @@ func gen(t *rapid.T) Case {
 		}
 		collect(c.Root)
 		x := all[rapid.IntRange(0, len(all)-1).Draw(t, "errAt")]
-		kinds := []string{"name", "enabled", "scope", "scope"}
+		kinds := []string{"name", "enabled", "scope", "scope", "unclosed-name", "unclosed-enabled", "unclosed-var"}
 		if x.Iter != "" {
 			kinds = append(kinds, "range")
 		}
@@ -645,6 +654,9 @@ func TestLoadFixed(t *testing.T) {
 	vh.Fixed(t, prop, "aggregator-with-only-disabled-iterator-instances", Case{Root: []*N{{Kind: "agg", Base: "a", Children: []*N{{Kind: "task", Base: "e", Enabled: "false", Iter: "range", IterN: 2, IterVar: "it2"}}}, leafN("k", "")}, Included: []*N{leafN("inc", "")}}, vh.Confirmed(run))
 	vh.Fixed(t, prop, "error-in-enabled", Case{Root: []*N{{Kind: "agg", Base: "a", Children: []*N{{Kind: "task", Base: "e", Err: "enabled"}}}, leafN("k", "")}, Included: []*N{leafN("inc", "")}}, vh.Confirmed(run))
 	vh.Fixed(t, prop, "variable-out-of-scope-same-text-valid-elsewhere", Case{Root: []*N{leafN("k", ""), {Kind: "agg", Base: "a", Children: []*N{{Kind: "task", Base: "e", Err: "scope"}, leafN("k2", "")}}}, Included: []*N{leafN("inc", "")}}, vh.Confirmed(run))
+	for _, k := range []string{"unclosed-name", "unclosed-enabled", "unclosed-var"} {
+		vh.Fixed(t, prop, "expression-not-closed-"+k, Case{Root: []*N{leafN("k", ""), {Kind: "agg", Base: "a", Children: []*N{{Kind: "task", Base: "e", Err: k}, leafN("k2", "")}}}, Included: []*N{leafN("inc", "")}}, vh.Confirmed(run))
+	}
 	vh.Fixed(t, prop, "error-in-range", Case{Root: []*N{{Kind: "agg", Base: "a", Children: []*N{{Kind: "task", Base: "e", Iter: "range", IterN: 2, IterVar: "it2", Err: "range"}}}, leafN("k", "")}, Included: []*N{leafN("inc", "")}}, vh.Confirmed(run))
 	vh.Fixed(t, prop, "error-deep-in-tree", Case{Root: bad, Included: []*N{leafN("inc", "")}}, vh.Confirmed(run))
 }
